@@ -137,6 +137,7 @@ func threadRun(L *LState) {
 
 	defer func() {
 		if rcv := recover(); rcv != nil {
+			L.closeUpvalues(0) // every frame of this thread dies with the error
 			var lv LValue
 			if v, ok := rcv.(*ApiError); ok {
 				lv = v.Object
